@@ -35,17 +35,22 @@ type mode struct {
 	short, oneShot bool
 	readerFrom     bool
 	stringWriter   bool
+	counting       bool // destination is the package's own exported CountingWriter, which has already counted a preamble
 }
 
+var preamble = []byte("sixteen byte pre")
+
 var modes = []mode{
-	{"error-return", false, false, false, false},
-	{"short-write", true, false, false, false},
-	{"error-return/one-shot", false, true, false, false},
-	{"short-write/one-shot", true, true, false, false},
-	{"error-return/ReaderFrom", false, false, true, false},
-	{"short-write/ReaderFrom", true, false, true, false},
-	{"error-return/StringWriter", false, false, false, true},
-	{"short-write/StringWriter", true, false, false, true},
+	{"error-return", false, false, false, false, false},
+	{"short-write", true, false, false, false, false},
+	{"error-return/one-shot", false, true, false, false, false},
+	{"short-write/one-shot", true, true, false, false, false},
+	{"error-return/ReaderFrom", false, false, true, false, false},
+	{"short-write/ReaderFrom", true, false, true, false, false},
+	{"error-return/StringWriter", false, false, false, true, false},
+	{"short-write/StringWriter", true, false, false, true, false},
+	{"short-write/CountingWriter-after-preamble", true, false, false, false, true},
+	{"error-return/CountingWriter-after-preamble", false, false, false, false, true},
 }
 
 func checkArtifact(r *mon.Run, a artifact, ks func(n int) []int, exhaustive bool) {
@@ -68,6 +73,9 @@ func checkArtifact(r *mon.Run, a artifact, ks func(n int) []int, exhaustive bool
 	}
 	positions := ks(len(full))
 	for _, m := range modes {
+		if m.counting && !a.hasCount {
+			continue
+		}
 		nbad := 0
 		for _, k := range positions {
 			var fw *gen.FaultWriter
@@ -78,6 +86,11 @@ func checkArtifact(r *mon.Run, a artifact, ks func(n int) []int, exhaustive bool
 			} else if m.stringWriter {
 				sw := &gen.FaultWriterSW{FaultWriter: gen.FaultWriter{Limit: k, Short: m.short, OneShot: m.oneShot}}
 				fw, w = &sw.FaultWriter, sw
+			} else if m.counting {
+				fw = &gen.FaultWriter{Limit: k + len(preamble), Short: m.short}
+				cw := bundle.NewCountingWriter(fw)
+				cw.Write(preamble)
+				w = cw
 			} else {
 				fw = &gen.FaultWriter{Limit: k, Short: m.short, OneShot: m.oneShot}
 				w = fw
@@ -86,6 +99,9 @@ func checkArtifact(r *mon.Run, a artifact, ks func(n int) []int, exhaustive bool
 			var err error
 			id := fmt.Sprintf("%s/%s/%s/k=%d", a.serializer, a.name, m.name, k)
 			p, pv := r.Call(id, nil, func() { cnt, err = a.run(w) })
+			if m.counting {
+				fw.Accepted = fw.Accepted[len(preamble):] // (what the serializer itself got accepted)
+			}
 			key := fmt.Sprintf("fw:%s:%s:%s", a.serializer, a.name, m.name)
 			det := map[string]any{"serializer": a.serializer, "artifact": a.name, "mode": m.name, "k": k, "output_len": len(full),
 				"accepted": len(fw.Accepted), "returned_count": cnt, "error": fmt.Sprint(err), "writer_calls": fw.Calls, "faults_delivered": fw.Faults}
@@ -181,7 +197,7 @@ func bundleArtifact(name string, b *bundle.Bundle) artifact {
 func main() { mon.Main("C19", run) }
 
 func run(r *mon.Run) {
-	r.Rule("for each serializer (Bundle.WriteTo, Exchange.Write, DumpExchangeHeaders, DumpSignedMessage, CertChain.Write, mice.Encode, every cbor.Encoder method incl. EncodeMap with 1..4 entries) and each representative artifact: every fault position k in [0, len(output)) plus the no-fault control k = len, in 8 delivery modes (error return / short write x persistent / one-shot, destinations with io.ReaderFrom, destinations with io.StringWriter); artifacts > 64 KiB use every position near both ends and around each 32 KiB multiple plus a stride; distinct = (serializer, artifact, mode)")
+	r.Rule("for each serializer (Bundle.WriteTo, Exchange.Write, DumpExchangeHeaders, DumpSignedMessage, CertChain.Write, mice.Encode, every cbor.Encoder method incl. EncodeMap with 1..4 entries) and each representative artifact: every fault position k in [0, len(output)) plus the no-fault control k = len, in 8 delivery modes (error return / short write x persistent / one-shot, destinations with io.ReaderFrom, destinations with io.StringWriter), plus, for the bundle writer, the exported CountingWriter as destination after it has counted a preamble; artifacts > 64 KiB use every position near both ends and around each 32 KiB multiple plus a stride; distinct = (serializer, artifact, mode)")
 	r.Assume("the instrumented writer is the only source of truth for what the destination accepted; a one-shot fault (a single failing Write) is a destination failure in the sense of the property")
 	var arts []artifact
 	var big []artifact
